@@ -9,6 +9,7 @@ git -C /repo worktree remove --force $wt >/dev/null 2>&1
 git -C /repo worktree add -q $wt HEAD || exit 2
 trap 'git -C /repo worktree remove --force '$wt' >/dev/null 2>&1; git -C /repo worktree prune' EXIT
 git -C $wt apply /verif/seeded/$id/patch.diff || { echo "patch does not apply"; exit 2; }
+rm -rf /verif/.cache/alt/replays /verif/.cache/alt/evidence
 cd /verif
 for p in "$@"; do
   out=$(VERIF_ALT_REPO=$wt ./check $p --tier ${TIER:-quick} ${RUNS:+--runs $RUNS} --nodeterminism 2>&1)
